@@ -177,6 +177,56 @@ theorem C06_java_EnumsNamed (S S' : Schemas) (hw : wfIR S = true)
     (fun S S' hH hr => post_AnonymousEnumToExplicitType S S' hH hr)
     (keepsShapeJ_sound qNoEnum qNoEnum_shape) (by decide) S S' (wfIR_EptOkAll hw) h
 
+/-! ## PHP
+
+The last pass of the PHP chain, InlineObjectsWithTypes, is modelled (with the store that reproduces
+its declaration-order dependence) and tied by correspondence, but has no preservation lemma; the
+full statement is refuted above (`C06_php_counterexample`: that very pass drops Nullable).  What is
+proved is the normal form of the IR HANDED TO that pass. -/
+
+/-- tests on member names are kept by the passes between SanitizeEnumMemberNames and the end -/
+def keepsNames : PassId → Bool
+  | .flattenDisjunctions => true
+  | .disjunctionInferMapping => true
+  | .undiscriminatedDisjunctionToAny => true
+  | _ => false
+
+theorem keepsNames_sound (p : String → Bool) (x : PassId) (h : keepsNames x = true) :
+    Keeps (AllTop (qNames p)) x := by
+  intro S S' hS hr
+  cases x <;> simp [keepsNames] at h
+  · exact keeps_FlattenDisjunctions (qNames p) (fun _ _ => rfl) S S' hS hr
+  · exact keeps_DisjunctionInferMapping (qNames p) S S' hS hr
+  · exact keeps_UndiscriminatedDisjunctionToAny (qNames p) (fun _ _ _ => rfl) S S' hS hr
+
+theorem EnumNames_php_iff (S : Schemas) : EnumNames_php S = true ↔ AllTop (qNames sanitised) S := by
+  simp [EnumNames_php, schemasAll_eq_AllObj, AllTop, satTop_qNames, sat_qNames]
+
+/-- PHP: in the IR handed to InlineObjectsWithTypes every enum is a named object and every enum
+    member name is sanitised — for EVERY well-formed input. -/
+theorem C06_php_beforeInline (S S' : Schemas) (hw : wfIR S = true)
+    (h : chain phpChain.dropLast S = .ok S') : EnumsNamed S' = true ∧ EnumNames_php S' = true := by
+  have hsplit : phpChain.dropLast =
+      (phpChain.dropLast.takeWhile (· != .sanitizeEnumMemberNames)) ++
+      (phpChain.dropLast.dropWhile (· != .sanitizeEnumMemberNames)) := (List.takeWhile_append_dropWhile ..).symm
+  rw [chain, hsplit] at h
+  obtain ⟨S1, h1, h2⟩ := (runChain_append _ _ S S').1 h
+  -- up to AnonymousEnumToExplicitType: EnumsNamed
+  have hS1 : AllTop qNoEnum S1 :=
+    chain_via (H := EptOkAll) (Q := AllTop qNoEnum) .anonymousEnumToExplicitType
+      keepsEpt keepsShape _ keepsEpt_sound
+      (fun S S' hH hr => post_AnonymousEnumToExplicitType S S' hH hr)
+      (keepsShape_sound qNoEnum qNoEnum_shape) (by decide) S S1 (wfIR_EptOkAll hw) h1
+  constructor
+  · rw [EnumsNamed_iff]
+    exact runChain_keeps _ (fun p hp => keepsShape_sound qNoEnum qNoEnum_shape p
+      (by revert p; decide)) S1 S' hS1 h2
+  · rw [EnumNames_php_iff]
+    exact chain_via (H := AllTop qNoEnum) (Q := AllTop (qNames sanitised)) .sanitizeEnumMemberNames
+      (fun _ => false) keepsNames _ (by simp)
+      (fun S S' hH hr => (EnumNames_php_iff S').1 (post_SanitizeEnumMemberNames S S' ((EnumsNamed_iff S).2 hH) hr))
+      (keepsNames_sound sanitised) (by decide) S1 S' hS1 h2
+
 /-! ## Python -/
 
 /-- Python: every struct outside an allOf composition is a named object — for EVERY well-formed
